@@ -6,6 +6,9 @@ from __future__ import annotations
 import copy
 import itertools
 import random
+import re
+
+_DIRECTIVE = re.compile(r"(?im)^\s*include\b")
 
 
 class Engine:
@@ -32,8 +35,12 @@ class Engine:
             return True
         return False
 
-    def loads(self, text, include_position=False, include_comments=False, expand_includes=False, force_public=False):
-        if force_public or (self._public() and not expand_includes):
+    def loads(self, text, include_position=False, include_comments=False, expand_includes=None, force_public=False):
+        if expand_includes is None:
+            # the public default (expand_includes=True: every text passes through the include pre-pass) unless the text holds a
+            # directive line - those documents are C15's business and would need their files
+            expand_includes = not _DIRECTIVE.search(text)
+        if force_public or self._public():
             return self.mf.loads(text, expand_includes=expand_includes, include_position=include_position,
                                  include_comments=include_comments)
         pk = (expand_includes, include_comments)
